@@ -475,8 +475,19 @@ class BaseInterpolatableCompiler(BaseCompiler):
     def compile_variable_features(self, designSpaceDoc, ttFont, glyphSet):
         default_ufo = designSpaceDoc.findDefault().font
 
+        # glyphs swapped in by designspace rules are reachable without any GSUB
+        # rule in features.fea, same as when each master gets its own features
+        extraSubstitutions = defaultdict(set)
+        for rule in designSpaceDoc.rules:
+            for left, right in rule.subs:
+                extraSubstitutions[left].add(right)
+
         featureCompiler = VariableFeatureCompiler(
-            default_ufo, designSpaceDoc, ttFont=ttFont, glyphSet=glyphSet
+            default_ufo,
+            designSpaceDoc,
+            ttFont=ttFont,
+            glyphSet=glyphSet,
+            extraSubstitutions=extraSubstitutions,
         )
         featureCompiler.compile()
 
